@@ -97,9 +97,34 @@ theorem concat_in_task_order {β : Type} (f : Nat → β) (nTasks : Nat) (nBatch
       (List.range' start nTasks).map f := by
   rw [← batches_cover nTasks nBatches start hn, List.map_flatMap]
 
+/-- pointwise form of "exactly once": every row index `k` of the request lies in the half-open range of exactly
+one batch, and an index outside the request lies in none — no row is evaluated twice, none is skipped, and no
+batch reaches outside `[start, start+nTasks)` -/
+theorem each_row_one_batch (nTasks : Nat) (nBatches : Int) (start : Nat) (hn : 1 ≤ nTasks) (k : Nat) :
+    owners (batchTasks nTasks nBatches start) k = if start ≤ k ∧ k < start + nTasks then 1 else 0 :=
+  chain_owners _ _ _ (batches_chain nTasks nBatches start)
+    (fun p hp => Nat.le_of_lt (batches_nonempty nTasks nBatches start hn p hp)) k
+
+/-- the owner of a row is found by its bounds: the batch that contains `k` is unique -/
+theorem owner_unique (nTasks : Nat) (nBatches : Int) (start : Nat) (hn : 1 ≤ nTasks) (k : Nat)
+    (p q : Nat × Nat) (hp : p ∈ batchTasks nTasks nBatches start) (hq : q ∈ batchTasks nTasks nBatches start)
+    (hpk : p.1 ≤ k ∧ k < p.2) (hqk : q.1 ≤ k ∧ k < q.2) : p = q := by
+  have h1 := each_row_one_batch nTasks nBatches start hn k
+  have hle : owners (batchTasks nTasks nBatches start) k ≤ 1 := by rw [h1]; split <;> omega
+  unfold owners at hle
+  have hpf : p ∈ (batchTasks nTasks nBatches start).filter fun p => decide (p.1 ≤ k ∧ k < p.2) := by
+    simp [List.mem_filter, hp, hpk]
+  have hqf : q ∈ (batchTasks nTasks nBatches start).filter fun p => decide (p.1 ≤ k ∧ k < p.2) := by
+    simp [List.mem_filter, hq, hqk]
+  match hl : (batchTasks nTasks nBatches start).filter fun p => decide (p.1 ≤ k ∧ k < p.2) with
+  | [] => rw [hl] at hpf; simp at hpf
+  | [x] => rw [hl] at hpf hqf; simp at hpf hqf; rw [hpf, hqf]
+  | x :: y :: r => rw [hl] at hle; simp at hle
+
 -- non-vacuity: a concrete non-trivial instance (10 tasks, 3 batches, start 5; and more batches than tasks)
 example : batchTasks 10 3 5 = [(5, 9), (9, 12), (12, 15)] := by decide
 example : batchTasks 3 7 0 = [(0, 3)] := by decide
+example : (List.range 20).map (owners (batchTasks 10 3 5)) = [0,0,0,0,0,1,1,1,1,1,1,1,1,1,1,0,0,0,0,0] := by decide
 example : batchTasksArr [10, 11, 12, 13, 14] 5 2 0 = [([10, 11, 12], 0), ([13, 14], 3)] := by decide
 
 end Batch
